@@ -82,7 +82,7 @@ func Pack(t *testing.T, im *Impl) {
 	r.Rule("eta field (pack over [-eta,eta], unpack over all bit patterns incl. out-of-range ones), gamma1 field (pack over (-gamma1,gamma1], unpack over all 2^(1+log gamma1) patterns), w1 field: " +
 		"every value of one slot at each position of the first packing period and at the last position, with two backgrounds, + boundary alphabet at all 256 positions; " +
 		"hint encoding: PackHint on all single, pair and full-weight hint vectors, UnpackHint on every single-byte substitution (all 256 values at each of the omega+k bytes) of 7 base encodings " +
-		"(thorough: also pairs over a boundary alphabet); oracle = Algorithms 16-21; distinct = (field, direction, position, background, 1024-aligned block) resp. (base, byte, value)")
+		"(thorough: also pairs over a boundary alphabet); oracle = Algorithms 16-21; distinct = (field, direction, position, background, 1024-aligned block) resp. (base, byte, value) and (base, byte pair) for the two-byte family (case count in counters)")
 
 	etaIn := func(v uint32) uint32 { // documented input range [q-eta, q+eta]
 		if v <= uint32(p.Eta) {
@@ -111,7 +111,8 @@ func Pack(t *testing.T, im *Impl) {
 				fmt.Sprintf("%s PackHint(%s) = %x, HintBitPack gives %x", im.Name, id, buf, want), nil)
 		}
 		// and back
-		got, ok := im.UnpackHint(buf)
+		got := make([]P, p.K)
+		ok := im.UnpackHint(buf, got)
 		if !ok || !hintEq(got, toRefVec(h)) {
 			r.Violation("C04|"+im.Name+"|UnpackHint|honest-encoding-refused", "packhint/"+id,
 				fmt.Sprintf("%s UnpackHint(PackHint(%s)) ok=%v or differs from the hint", im.Name, id, ok), nil)
@@ -148,10 +149,10 @@ func Pack(t *testing.T, im *Impl) {
 	}
 
 	// ---- UnpackHint on malformed encodings
-	checkUnpack := func(y []byte, id string) {
-		got, ok := im.UnpackHint(y)
-		want, wok := ref.HintBitUnpack(p, y)
-		r.Eval(1)
+	// checkUnpack returns 0 = both refuse, 1 = both accept, 2 = disagreement (reported)
+	checkUnpack := func(y []byte, id string, got []P, want []*ref.Poly) int {
+		ok := im.UnpackHint(y, got)
+		wok := ref.HintBitUnpackInto(p, y, want)
 		switch {
 		case ok != wok:
 			cls := "accepts-malformed"
@@ -160,55 +161,83 @@ func Pack(t *testing.T, im *Impl) {
 			}
 			r.Violation("C04|"+im.Name+"|UnpackHint|"+cls, "unpackhint/"+id,
 				fmt.Sprintf("%s UnpackHint(%x) ok=%v, HintBitUnpack ok=%v (%s)", im.Name, y, ok, wok, id), map[string]interface{}{"bytes": fmt.Sprintf("%x", y)})
-			r.Outcome("disagree")
+			return 2
 		case ok && !hintEq(got, want):
 			r.Violation("C04|"+im.Name+"|UnpackHint|wrong-vector", "unpackhint/"+id,
 				fmt.Sprintf("%s UnpackHint(%x) decodes to a different hint vector than HintBitUnpack (%s)", im.Name, y, id), map[string]interface{}{"bytes": fmt.Sprintf("%x", y)})
-			r.Outcome("disagree")
+			return 2
 		case ok:
-			r.Outcome("both-accept")
-			r.Count("unpackhint_accepted", 1)
-		default:
-			r.Outcome("both-refuse")
-			r.Count("unpackhint_refused", 1)
+			return 1
 		}
+		return 0
 	}
 	balpha := []byte{0, 1, 2, 0x7f, 0x80, 0xfe, 0xff, byte(p.Omega - 1), byte(p.Omega), byte(p.Omega + 1)}
-	verifmc.ParallelFor(len(bases), func(bi int) {
+	verifmc.ParallelFor(len(bases)*hsize, func(k int) {
+		bi, at := k/hsize, k%hsize
 		base := ref.HintBitPack(p, toRefVec(bases[bi]))
-		for at := 0; at < hsize; at++ {
-			for v := 0; v < 256; v++ {
-				y := append([]byte{}, base...)
-				y[at] = byte(v)
-				id := fmt.Sprintf("sub/%d/%d/%d", bi, at, v)
-				if !r.Want("unpackhint/" + id) {
+		var cls [3]int
+		got, want := make([]P, p.K), make([]*ref.Poly, p.K)
+		for i := range want {
+			want[i] = new(ref.Poly)
+		}
+		y := make([]byte, len(base))
+		defer func() {
+			r.Eval(cls[0] + cls[1] + cls[2])
+			r.Count("unpackhint_refused", cls[0])
+			r.Count("unpackhint_accepted", cls[1])
+			r.Count("unpackhint_disagree", cls[2])
+		}()
+		for v := 0; v < 256; v++ {
+			copy(y, base)
+			y[at] = byte(v)
+			id := ""
+			if r.Replaying() {
+				if id = fmt.Sprintf("sub/%d/%d/%d", bi, at, v); !r.Want("unpackhint/" + id) {
 					continue
 				}
-				checkUnpack(y, id)
-				r.Distinct("hu1", bi, at, v)
 			}
+			if c := checkUnpack(y, id, got, want); c == 2 && id == "" {
+				checkUnpack(y, fmt.Sprintf("sub/%d/%d/%d", bi, at, v), got, want)
+				cls[2]++
+			} else {
+				cls[c]++
+			}
+			r.Distinct("hu1", bi, at, v)
 		}
 		if r.Thorough() {
-			for at := 0; at < hsize; at++ {
-				for at2 := at + 1; at2 < hsize; at2++ {
-					for _, v := range balpha {
-						for _, v2 := range balpha {
-							y := append([]byte{}, base...)
-							y[at], y[at2] = v, v2
-							id := fmt.Sprintf("sub2/%d/%d/%d/%d/%d", bi, at, v, at2, v2)
-							if !r.Want("unpackhint/" + id) {
+			n := 0
+			for at2 := at + 1; at2 < hsize; at2++ {
+				for _, v := range balpha {
+					for _, v2 := range balpha {
+						copy(y, base)
+						y[at], y[at2] = v, v2
+						id := ""
+						if r.Replaying() {
+							if id = fmt.Sprintf("sub2/%d/%d/%d/%d/%d", bi, at, v, at2, v2); !r.Want("unpackhint/" + id) {
 								continue
 							}
-							checkUnpack(y, id)
-							r.Distinct("hu2", bi, at, v, at2, v2)
 						}
+						if c := checkUnpack(y, id, got, want); c == 2 && id == "" {
+							checkUnpack(y, fmt.Sprintf("sub2/%d/%d/%d/%d/%d", bi, at, v, at2, v2), got, want)
+							cls[2]++
+						} else {
+							cls[c]++
+						}
+						n++
 					}
 				}
+				r.Distinct("hu2", bi, at, at2)
 			}
+			r.Count("unpackhint_two_byte_cases", n)
 		}
 	})
 	if !r.Thorough() {
 		r.NotExhaustive("quick tier: hint encodings with two substituted bytes are enumerated in the thorough tier only")
+	}
+	for _, o := range []string{"unpackhint_refused", "unpackhint_accepted", "unpackhint_disagree"} {
+		if r.Counter(o) > 0 {
+			r.Outcome(o)
+		}
 	}
 	r.RequireCounter("unpackhint_accepted", 100)
 	r.RequireCounter("unpackhint_refused", 1000)
